@@ -19,6 +19,8 @@ impl<'a> Parser<'a> {
             Some(token) => token,
             None => return Err(ParseError::InvalidOperator("Invalid character".into())),
         };
+        #[cfg(feature = "verif_hooks")]
+        crate::verif_hooks::event_token(&cur_token);
         Ok(Parser {
             tokenizer: lexer,
             current_token: cur_token,
@@ -43,11 +45,15 @@ impl<'a> Parser<'a> {
         };
         self.previous_token = Some(self.current_token.clone());
         self.current_token = next_token;
+        #[cfg(feature = "verif_hooks")]
+        crate::verif_hooks::event_token(&self.current_token);
         Ok(())
     }
     fn generate_ast(&mut self, oper_prec: OperatorCategory) -> Result<Node, ParseError> {
         #[cfg(feature = "verif_hooks")]
         crate::verif_hooks::tick(1);
+        #[cfg(feature = "verif_hooks")]
+        crate::verif_hooks::event_enter(oper_prec.clone() as u8);
         let mut left_expr = self.parse_number()?;
         while oper_prec < self.current_token.get_oper_prec() {
             #[cfg(feature = "verif_hooks")]
